@@ -8,6 +8,9 @@ open V V.Json V.Driver V.Auth V.Driver.AuthOps
 
 structure St where
   provs : Array (List Event)
+  /-- room IDs a provider object remembers beyond those of the events added since its last `Clear()` (none since
+      d0889b7: `Clear()` empties `roomIDs` too; before, it kept them) -/
+  stale : Array (List Bytes)
   ctx : Option Ctx := none
   cur : Nat := 0
   outM : List String := []
@@ -19,18 +22,37 @@ def verdictOf (r : R Unit) : String :=
   | .ok () => "ok"
   | .error v => v.coarse
 
+/-- the provider OBJECT number `i` as the code holds it: the events added since the last `Clear()`, and every room ID it
+    has ever seen -/
+def St.provider (s : St) (i : Nat) : Provider :=
+  let p := Provider.ofEvents (s.provs[i]!) (i + 1)
+  { p with roomIDs := (s.stale[i]! ++ p.roomIDs).foldl (fun acc r => if acc.contains r then acc else acc ++ [r]) [] }
+
+/-- a FRESH provider holding exactly the events provider `i` holds now (the specification's view) -/
+def St.freshProvider (s : St) (i : Nat) : Provider := Provider.ofEvents (s.provs[i]!) (i + 1)
+
 def step (evs : Array Event) (s : St) (st : String) : St :=
   if s.bad.isSome then s else
   match st.toList with
   | 'u' :: rest =>
     let i := (String.ofList rest).toNat!
-    let p := Provider.ofEvents (s.provs[i]!) (i + 1)
+    let p := s.provider i
     match (s.ctx.getD {}).update p with
     | .ok c => { s with ctx := some c, cur := i }
     | .error v => { s with bad := some v.coarse }
   | 'c' :: rest =>
     let i := (String.ofList rest).toNat!
-    { s with provs := s.provs.set! i [] }
+    -- `Clear()` forgets the events and, since d0889b7, the room IDs it had seen
+    { s with provs := s.provs.set! i [], stale := s.stale.set! i [] }
+  | 'f' :: rest =>
+    -- the standalone `Allowed(event, provider object i)`; specification: `Allowed` on a fresh provider with the same events
+    match (String.ofList rest).splitOn ":" with
+    | [is, js, sig] =>
+      let i := is.toNat!; let j := js.toNat!
+      let m := (allowedFresh evs[j]! (s.provider i) (sig == "1")).coarse
+      let fresh := (allowedFresh evs[j]! (s.freshProvider i) (sig == "1")).coarse
+      { s with outM := s.outM ++ [m], outS := s.outS ++ [fresh] }
+    | _ => { s with bad := some "bad-op" }
   | 'm' :: rest =>
     match (String.ofList rest).splitOn ":" with
     | [is, js] =>
@@ -45,8 +67,9 @@ def step (evs : Array Event) (s : St) (st : String) : St :=
       | none => { s with bad := some "bad-op" }
       | some c =>
         let m := verdictOf (c.allowed evs[j]! (sig == "1"))
-        -- specification: the verdict of a fresh check against the provider as it is NOW
-        let fresh := (allowedFreshNoValid evs[j]! (Provider.ofEvents (s.provs[s.cur]!) (s.cur + 1)) (sig == "1")).coarse
+        -- specification: the verdict of the standalone `Allowed` (with its Valid() gate) on a fresh provider holding the
+        -- events the checker's provider holds NOW
+        let fresh := (allowedFresh evs[j]! (s.freshProvider s.cur) (sig == "1")).coarse
         { s with outM := s.outM ++ [m], outS := s.outS ++ [fresh] }
     | _ => { s with bad := some "bad-op" }
   | _ => { s with bad := some "bad-op" }
@@ -54,13 +77,14 @@ def step (evs : Array Event) (s : St) (st : String) : St :=
 def handle (op : String) (args : Array String) : Option String :=
   match op, args.toList with
   | "needed", as => NeededOps.handle as
+  | "addauth", as => NeededOps.handleAddAuth as
   | "seq", [ver, provs, evs, steps] =>
     let v := strBytes ver
     let ps : Option (List (List Event)) := (provs.splitOn "|").mapM (fun p =>
       if p == "-" || p == "" then some [] else parseEvArgs v (p.splitOn ","))
     match ps, parseEvArgs v (evs.splitOn ",") with
     | some ps, some es =>
-      let s := (steps.splitOn ",").foldl (step es.toArray) { provs := ps.toArray }
+      let s := (steps.splitOn ",").foldl (step es.toArray) { provs := ps.toArray, stale := (ps.map (fun _ => [])).toArray }
       match s.bad with
       | some b => some b
       | none =>
